@@ -332,7 +332,32 @@ def rule_no_stale_state(ck: Check, repo: Repo) -> None:
                     r.violation(q, f"decision `{cond.replace('__in_loop', '')}` uses `{var}` as left by the previous path",
                                 f"`{var}` is assigned inside the loop but not reset at the start of each iteration, so the check of one"
                                 f" path depends on which paths were examined before it (and on their order)", repo.loc(fn))
-        r.instance(q, {"function": q, "loop_carried_decisions": sorted(seen)})
+        # the same through a container: filled while the paths are examined AND consulted by a per-path decision
+        memo = []
+        for loop in [x for x in ast.walk(fn) if isinstance(x, ast.For)]:
+            mutated = set()
+            for x in ast.walk(loop):
+                if isinstance(x, (ast.Assign, ast.AugAssign)):
+                    tg = x.targets if isinstance(x, ast.Assign) else [x.target]
+                    mutated |= {t.value.id for t in tg if isinstance(t, ast.Subscript) and isinstance(t.value, ast.Name)}
+                elif isinstance(x, ast.Call) and isinstance(x.func, ast.Attribute) and isinstance(x.func.value, ast.Name) \
+                        and x.func.attr in ("add", "append", "update", "setdefault", "extend", "insert"):
+                    mutated.add(x.func.value.id)
+            loop_bound = {t.id for t in ast.walk(loop.target) if isinstance(t, ast.Name)}
+            for x in ast.walk(loop):
+                if isinstance(x, (ast.If, ast.IfExp, ast.While)):
+                    used = {t.id for t in ast.walk(x.test) if isinstance(t, ast.Name)}
+                    for name in sorted((used & mutated) - loop_bound):
+                        # bound before the loop (not per iteration)?
+                        inside = any(isinstance(a, ast.Assign) and any(isinstance(t, ast.Name) and t.id == name for t in a.targets)
+                                     for a in ast.walk(loop))
+                        if not inside and name not in memo:
+                            memo.append(name)
+                            r.violation(q, f"decision `{ast.unparse(x.test)[:60]}` consults `{name}`, which the loop fills as it goes",
+                                        f"`{name}` is created before the loop, updated inside it and read by a per-path decision: the"
+                                        f" verdict for one path depends on which paths were examined before it (and on their order)",
+                                        repo.loc(x))
+        r.instance(q, {"function": q, "loop_carried_decisions": sorted(seen), "containers_consulted": memo})
     r.floor(6, "decision atoms examined", got=n)
 
 
